@@ -897,6 +897,10 @@ fn verifvm_placement() -> String {
 }
 
 pub fn run(run: &mut Run) {
+    if std::env::var("C17_PHASE").as_deref() == Ok("b") {
+        // debugging aid: only seam (b)
+        return crate::props::c17b::run(run);
+    }
     init_scratch();
     let mut cfgs = configs(run.tier);
     if let Ok(f) = std::env::var("C17_FILTER") {
@@ -977,10 +981,17 @@ pub fn run(run: &mut Run) {
     run.set("rule", "per (trace pattern {CopySpace::trace_object, Immix opportunistic copy: move / decline / already marked}, placement of forwarding bits and pointer {in pointer word shift 0 / 56, separate header word / byte, bits side, pointer side, both side}, 2-3 tracers, optional observer): every interleaving at the forwarding / mark metadata atomics of the object (2 tracers: all; 3 tracers and quick-tier observer runs: up to the stated preemption bound); oracle: copy ran exactly once (0 if declined), all tracers return the same reference (the copy / the unmoved object), observers only ever read the winner's pointer, nobody spins for ever, final forwarding state consistent, no stray write; non-trivial = some thread was interleaved by another between two of its own atomics on the object's metadata. Neighbour scenarios (1-2 tracers + a neighbour thread that changes OTHER bits of the byte holding the object's forwarding bits: side bits -> the neighbouring object of the 32-byte group is forwarded (attempt_to_forward + forward_object) or claimed and released (attempt_to_forward + clear_forwarding_bits); in-header bits -> store_atomic(1), fetch_and(0), fetch_or(1) on a 1-bit header field of the same byte, or one single fetch_or(1)): 1 tracer + neighbour all interleavings, 2 tracers + neighbour up to the stated bound (all interleavings for the single-fetch_or neighbour where stated); same oracle, the stray-write clause tolerating exactly the neighbour's own field(s), plus: the neighbour's calls return what they return alone and its last write survives (not required of a header bit inside the forwarding-pointer word once forward_object has overwritten that word); non-trivial there = a write-like atomic of the neighbour on the forwarding-bits byte fell between a tracer's access to that byte and the same tracer's next compare-exchange on it (every neighbour scenario must contain such executions)");
     run.assume("sequentially consistent interleavings at the instrumented atomics only (engine baton); no weak-memory effects");
     run.assume("neighbour scenarios: the neighbour field is a 1-bit in-header field chosen by the harness in the forwarding-bits byte (bit 2 next to bits at shift 0; bits 58/63, 66/71, -6/-1 elsewhere), resp. the side forwarding bits of the adjacent object 8 bytes away (objects of 8 bytes, the minimum the side spec's granule allows); observer and neighbour are not combined");
-    run.assume("seam (a) only: the object_forwarding functions under the call patterns of CopySpace::trace_object and ImmixSpace::trace_object_with_opportunistic_copy; the copy itself is a harness function returning a fresh address (VM::VMObjectModel::copy of the unit binding), the on_after_forwarding callback is empty, ImmixSpace::is_marked/attempt_mark are replaced by their metadata-level operations");
+    run.assume("seam (a): the object_forwarding functions under the call patterns of CopySpace::trace_object and ImmixSpace::trace_object_with_opportunistic_copy; the copy itself is a harness function returning a fresh address (VM::VMObjectModel::copy of the unit binding), the on_after_forwarding callback is empty, ImmixSpace::is_marked/attempt_mark are replaced by their metadata-level operations");
+    // seam (b): the real trace_object raced inside real collections (child processes)
+    if std::env::var("C17_FILTER").is_err() && std::env::var("C17_PHASE").as_deref() != Ok("a") {
+        crate::props::c17b::run(run);
+    }
 }
 
 pub fn replay(case: &Value, run: &mut Run) {
+    if crate::props::c17b::is_case(case) {
+        return crate::props::c17b::replay(case, run);
+    }
     init_scratch();
     let p = params_from_json(&case["params"]);
     let sc = Sc::new(p, 0);
